@@ -5,7 +5,7 @@ import itertools
 
 from ..program import AnalysisError, walk_local, dotted
 from ..analysis import Spec, src, const_value
-from ..rules import (canon, cond_branches, substitute_locals, parent_map, template_sites, inside, before, GWF, EXC, mpt, need_func, stores_to, is_const, kw,
+from ..rules import (string_template, ctext, canon, cond_branches, substitute_locals, parent_map, template_sites, inside, before, GWF, EXC, mpt, need_func, stores_to, is_const, kw,
                      parent_map, raise_class, explicit_exits,
                      strip_wrappers)
 from . import common
@@ -293,8 +293,9 @@ def warning_conditions(prog, an, rep):
     rep.check(isinstance(itv, ast.Call) and
               isinstance(itv.func, ast.Attribute) and
               itv.func.attr == 'get_commit_diff' and
-              canon(f, itv.func.value) == B and
-              [canon(f, a) for a in itv.args] == [B + '.dst_branch'], R,
+              canon(f, itv.func.value) == ctext(f, B) and
+              [canon(f, a) for a in itv.args] ==
+              [ctext(f, B + '.dst_branch')], R,
               f.qname + ': examines the commits of the integration branch '
               'that are not on its destination', f.where(inner),
               'commits come from %s' % src(inner.iter))
@@ -303,8 +304,9 @@ def warning_conditions(prog, an, rep):
     for st in walk_local(outer, include_root=False):
         if isinstance(st, ast.Assign) and len(st.targets) == 1 and \
                 isinstance(st.targets[0], ast.Name) and \
-                canon(f, st.value) == 'set(%s.src_branch.get_commit_diff('\
-                '%s.dst_branch))' % (B, B):
+                canon(f, st.value) == ctext(
+                    f, 'set(%s.src_branch.get_commit_diff(%s.dst_branch))'
+                    % (B, B)):
             feat = st.targets[0].id
     rep.check(feat is not None, R, f.qname + ': feature set = commits of '
               'the source branch not on the destination', f.where(outer),
@@ -490,7 +492,7 @@ def own_branches_only(prog, an, rep):
     # GitHub implementation treats an empty src_branch filter as "no
     # filter" and would return every open pull request
     c = an.cfg(f)
-    nonempty = an.branch_nodes(f, lambda e: src(e) == 'wbranches', True)
+    nonempty = an.branch_nodes(f, lambda e: src(e) == wb_var, True)
     qn = [n for n in c.nodes.values() if n.kind == 'stmt' and any(
         isinstance(x, ast.Call) and isinstance(x.func, ast.Attribute) and
         x.func.attr == 'get_pull_requests' for x in ast.walk(n.ast))]
@@ -551,7 +553,7 @@ def own_names(prog, an, rep):
     fm = template_sites(f)
     sv = [canon(f, a) for a in fm[0][2]] if len(fm) == 1 else []
     ok = len(fm) == 1 and fm[0][1] == 'w/{}/{}' and \
-        sv == [dv + '.version', f.params[0] + '.git.src_branch']
+        sv == [ctext(f, dv + '.version'), f.params[0] + '.git.src_branch']
     rep.evaluated()
     rep.check(ok, R, f.qname + ': names are w/<target version>/<this '
               'source branch>', f.where(), 'names built by %s with src=%s' %
@@ -571,6 +573,9 @@ def own_names(prog, an, rep):
     bf = [x for x in prog.calls_in(f)
           if an.call_matches(f, x, Spec.func(GWF +
                                              '.branches.branch_factory'))]
-    rep.check(len(bf) == 1 and src(bf[0].args[1]) == 'name', R,
+    # (the name: the expression the w/ template sits in, through any local)
+    tmpl = string_template(substitute_locals(f, bf[0].args[1])) \
+        if len(bf) == 1 and len(bf[0].args) > 1 else None
+    rep.check(len(bf) == 1 and tmpl is not None and tmpl[0] == 'w/{}/{}', R,
               f.qname + ': the branch object is built from that name',
               f.where(), 'branch_factory(%s)' % [src(x) for x in bf])
